@@ -277,9 +277,20 @@ def run_native(h: Harness, params, inputs, step_limit=None):
     import tracemalloc
 
     measure = h.budget_violation
+    import signal
+    import threading
+
+    def _alarm(signum, frame):
+        raise NativeBudget()
+
+    use_alarm = threading.current_thread() is threading.main_thread()
     try:
         if measure:
             tracemalloc.start()
+        if use_alarm:
+            # wall-clock bound as well: code that loops without executing new source lines (inlined comprehensions) is not seen by the line counter
+            old_handler = signal.signal(signal.SIGALRM, _alarm)
+            signal.setitimer(signal.ITIMER_REAL, getattr(h, "native_wall_limit", 30.0))
         sys.settrace(_tracer_factory(ctx))
         try:
             v = h.fn(ctx, **params)
@@ -301,6 +312,9 @@ def run_native(h: Harness, params, inputs, step_limit=None):
                 return NativeOutcome("budget", f"peak allocation {tracemalloc.get_traced_memory()[1]} bytes", None, ctx.reached, ctx.steps)
             return NativeOutcome("raise", e, None, ctx.reached, ctx.steps)
     finally:
+        if use_alarm:
+            signal.setitimer(signal.ITIMER_REAL, 0)
+            signal.signal(signal.SIGALRM, old_handler)
         if measure:
             tracemalloc.stop()
         sys.settrace(old)
